@@ -79,6 +79,27 @@ def reset_execution():
     _opq = itertools.count()
 
 
+def caller_snapshot(max_up=8):
+    """Locals of the nearest enclosing loop-cut body / repo function frame (shallow copies of lists): the state of the
+    decomposition at the time a dependency is called (used by call-site obligations)."""
+    import sys
+    f = sys._getframe(2)
+    for _ in range(max_up):
+        if f is None:
+            break
+        name = f.f_code.co_name
+        fn = f.f_code.co_filename
+        if name.endswith("__vt_body") or name.endswith("__vt_prefix") or (("/tensorly/" in fn) and "/backend/" not in fn):
+            snap = {k: (list(v) if isinstance(v, list) else v) for k, v in f.f_locals.items() if not k.startswith("__")}
+            for k, v in list(snap.items()):
+                fl = getattr(v, "factors", None)  # wrapper objects are updated in place by the code: freeze their factor list
+                if isinstance(fl, list):
+                    snap[k + ".factors"] = list(fl)
+            return snap
+        f = f.f_back
+    return {}
+
+
 def axis_sizes(t):
     """per axis: the list of digit sizes (so that an opaque result keeps the mixed-radix structure of its source)"""
     t = lift(t)
@@ -430,6 +451,32 @@ def conj(t):
 
 
 # ------------------------------------------------------------------------------------------------ elementwise
+def _as_identity(t):
+    """(i, j) if t is exactly the identity matrix delta(i, j) on two single-digit axes, else None"""
+    if t.ndim == 2 and len(t.axes[0]) == 1 and len(t.axes[1]) == 1 and len(t.body.terms) == 1:
+        tm = t.body.terms[0]
+        if not tm.bound and len(tm.facs) == 1 and tm.facs[0][0][0] == "D" and tm.facs[0][1] == 1:
+            return tm
+    return None
+
+
+def _regroup_identity(idt, like):
+    """the identity (times a scalar) re-expressed on the composite digit structure of `like` (a square matrix)"""
+    tm = _as_identity(idt)
+    if tm is None or like.ndim != 2 or len(like.axes[0]) != len(like.axes[1]):
+        return None
+    if not all(same(VSIZE[u], VSIZE[w]) for u, w in zip(like.axes[0], like.axes[1])):
+        return None
+    if not same(sprod(VSIZE[v] for v in like.axes[0]), VSIZE[idt.axes[0][0]]):
+        return None
+    rows = [fresh(VSIZE[v], "e") for v in like.axes[0]]
+    cols = [fresh(VSIZE[v], "e") for v in like.axes[1]]
+    body = X.const(tm.coef)
+    for r_, c_ in zip(rows, cols):
+        body = body * X.delta(r_, c_)
+    return GTensor([rows, cols], body, idt.dtype)
+
+
 def _align(a, b):
     """Broadcast two (already instantiated) tensors: returns axes, substitution for b's digits."""
     n = max(a.ndim, b.ndim)
@@ -464,7 +511,19 @@ def binop(a, b, op):
     dt = _result_dtype(a, b) if op != "div" else _result_dtype(a, b, 1.0 if not (isinstance(a, GTensor) and a.dtype.startswith(("float", "complex"))) and not (isinstance(b, GTensor) and b.dtype.startswith(("float", "complex"))) else 1)
     a = inst(lift(a))
     b = inst(lift(b))
-    axes, sub = _align(a, b)
+    try:
+        axes, sub = _align(a, b)
+    except Misaligned:
+        # lambda * I added to a Gram matrix whose rows/columns are composite: the identity factorises over the digits
+        ra = _regroup_identity(a, b)
+        rb = _regroup_identity(b, a)
+        if ra is not None:
+            a = ra
+        elif rb is not None:
+            b = rb
+        else:
+            raise
+        axes, sub = _align(a, b)
     bb = b.body.subst(sub)
     if op == "mul":
         body = a.body * bb
